@@ -15,8 +15,29 @@ def lib_suite(name):
     return {"basic": bls.G2Basic, "aug": bls.G2MessageAugmentation, "pop": bls.G2ProofOfPossession}[name]
 
 
+X = 0xD201000000010000                 # |x| of BLS12-381; r = x^4 - x^2 + 1
+LAMBDA = (X * X - 1) % R               # a cube root of unity modulo r (the GLV eigenvalue on G1)
+assert (LAMBDA * LAMBDA + LAMBDA + 1) % R == 0
+
+
+def special_scalars():
+    """Scalars in an algebraic relation with the curve parameter: the shapes on which scalar
+    decompositions (GLV / GLS), windowing and folding n -> r - n have their corner cases."""
+    out = set()
+    for base in (X, X * X, X * X - 1, X * X + 1, X ** 3 % R, LAMBDA, (LAMBDA + 1) % R, X * X * X * X % R):
+        for k in (1, 2, 3, 7, 31415926535, (1 << 64) - 1):
+            v = (k * base) % R
+            out.update((v, R - v, (v + 1) % R, (v - 1) % R))
+    out.update(((R - 1) // 2, (R + 1) // 2, (R - 1) // 3, 2 * (R - 1) // 3, R // 2 + X * X, (R - 1) // 2 - X * X))
+    return sorted(v for v in out if 0 < v < R)
+
+
+SPECIAL_SKS = special_scalars()
+
+
 def s_sk():
-    return scalar_in(1, R - 1, extra=(2, 3, R - 2))
+    return st.one_of(scalar_in(1, R - 1, extra=(2, 3, R - 2)), scalar_in(1, R - 1, extra=(2, 3, R - 2)),
+                     scalar_in(1, R - 1, extra=(2, 3, R - 2)), st.sampled_from(SPECIAL_SKS))
 
 
 def s_suite():
@@ -27,6 +48,7 @@ BAD_SKS = [0, R, R + 1, -1, -R, 1 << 255, 1 << 256, 2 * R, -(1 << 255)]
 BAD_SK_OBJECTS = ["1", 1.0, None, b"\x01", [1], (1,), 1 + 0j]
 BOUNDARY_SKS = [1, 2, R - 2, R - 1]
 BOUNDARY_MSG_LENS = [0, 1, 55, 56, 63, 64, 65]
+_SPECIAL_SET = set(SPECIAL_SKS)
 
 
 def msg_class(m: bytes) -> str:
@@ -45,5 +67,7 @@ def msg_class(m: bytes) -> str:
 def sk_class(sk: int) -> str:
     if sk in BOUNDARY_SKS:
         return "boundary"
+    if sk in _SPECIAL_SET:
+        return "curve_parameter_related"
     b = sk.bit_length()
     return "<128b" if b < 128 else ("128-199b" if b < 200 else ">=200b")
